@@ -14,3 +14,6 @@ open Fzf.Props.C02
 #print axioms C02_v1_sound_complete
 #print axioms C02_indexAt_is_source
 #print axioms C02_v1_forward_total
+#print axioms C02_exact_total
+#print axioms C02_exact_sound
+#print axioms C02_exact_complete
